@@ -16,9 +16,18 @@ func verifBaseRule14(i int) *Rule {
 func VerifC14() {
 	rt.SetClockMs(2000000000000)
 	nOld, nNew := 1+rt.Choice(rt.Param("NOLD")), 1+rt.Choice(rt.Param("NNEW"))
+	// old list: pairwise different rules, or (DUP) with field-identical duplicates; rep[i] is the first old index of i's class
 	var old []*Rule
+	rep := make([]int, nOld)
 	for i := 0; i < nOld; i++ {
-		old = append(old, verifBaseRule14(i))
+		if rt.Param("DUP") != 0 && i > 0 && rt.Bool("dup") {
+			rep[i] = rep[rt.Choice(i)]
+			x := *old[rep[i]]
+			old = append(old, &x)
+		} else {
+			rep[i] = i
+			old = append(old, verifBaseRule14(i))
+		}
 	}
 	if _, err := LoadRules(old); err != nil {
 		rt.Assert(false, "initial load failed")
@@ -30,18 +39,18 @@ func VerifC14() {
 		return
 	}
 	// new list: each element an identical copy of an old rule, a modified (stat-compatible) copy, or an unrelated rule
-	kind := make([]int, nNew) // 0..nOld-1: identical to old[k]; 10+k: modified copy of old[k]; 99: unrelated
+	kind := make([]int, nNew) // k = class representative: identical to old[k]; 10+k: modified copy of old[k]; 99: unrelated
 	var nl []*Rule
 	for i := 0; i < nNew; i++ {
 		c := rt.Choice(2*nOld + 1)
 		switch {
 		case c < nOld:
 			x := *old[c]
-			nl, kind[i] = append(nl, &x), c
+			nl, kind[i] = append(nl, &x), rep[c]
 		case c < 2*nOld:
 			x := *old[c-nOld]
 			x.Threshold += 100 // same statistic shape, different threshold
-			nl, kind[i] = append(nl, &x), 10+c-nOld
+			nl, kind[i] = append(nl, &x), 10+rep[c-nOld]
 		default:
 			nl, kind[i] = append(nl, &Rule{Resource: "A", MetricType: QPS, ControlBehavior: Throttling, Threshold: 5, DurationInSec: 1, MaxQueueingTimeMs: 10, ParamsMaxCapacity: 5}), 99
 		}
@@ -68,27 +77,41 @@ func VerifC14() {
 			region = true
 		}
 	}
-	// identical rules keep their breaker object (and hence state, deadline, statistics)
+	// identical rules keep their controller objects: as many as both lists hold
+	keptOld := make([]bool, nOld)
+	spare, surplus := 0, 0
 	for k := 0; k < nOld; k++ {
-		inNew, kept := 0, 0
+		if rep[k] != k {
+			continue
+		}
+		mOld, inNew, kept := 0, 0, 0
+		for j := 0; j < nOld; j++ {
+			if rep[j] == k {
+				mOld++
+			}
+		}
 		for i := 0; i < nNew; i++ {
-			// old rules are pairwise different (different thresholds), so the class of old[k] is {old[k]}
 			if kind[i] == k {
 				inNew++
 			}
-			if rt.SameObject(nb[i], ob[k]) {
-				kept++
-				rt.Assert(kind[i] == k, "an old controller is only reused for a rule identical to its own")
+			for j := 0; j < nOld; j++ {
+				if rep[j] == k && rt.SameObject(nb[i], ob[j]) {
+					kept++
+					keptOld[j] = true
+					rt.Assert(kind[i] == k, "an old controller is only reused for a rule identical to its own")
+				}
 			}
 		}
-		want := 0
-		if inNew > 0 {
-			want = 1
+		want := mOld
+		if inNew < want {
+			want = inNew
 		}
-		rt.AssertExcept(kept == want, "a rule identical in the old and new list keeps its controller object (per-value counters)", "D9", region)
+		spare += mOld - want
+		surplus += inNew - want
+		rt.AssertExcept(kept == want, "every rule identical in the old and new list keeps a controller object (per-value counters), duplicates included", "D9", region)
 	}
-	// a modified rule with unchanged statistic parameters keeps the accumulated statistics of an old breaker
-	// that no identical rule claims, when there is exactly one such candidate and one such modified rule
+	// a modified rule with unchanged statistic parameters keeps the accumulated statistics of an old controller
+	// that no identical rule keeps, when it is the only one looking for statistics
 	nMod, modIdx := 0, -1
 	for i := 0; i < nNew; i++ {
 		if kind[i] >= 10 && kind[i] < 99 {
@@ -96,34 +119,14 @@ func VerifC14() {
 			modIdx = i
 		}
 	}
-	unclaimed, ucIdx := 0, -1
-	for k := 0; k < nOld; k++ {
-		claimed := false
-		for i := 0; i < nNew; i++ {
-			if kind[i] == k {
-				claimed = true
-			}
-		}
-		if !claimed {
-			unclaimed++
-			ucIdx = k
-		}
-	}
-	// surplus copies of an identical rule (more copies than old breakers of that rule) also look for statistics
-	surplus := 0
-	for k := 0; k < nOld; k++ {
-		c := 0
-		for i := 0; i < nNew; i++ {
-			if kind[i] == k {
-				c++
-			}
-		}
-		if c > 1 {
-			surplus += c - 1
-		}
-	}
-	if nMod == 1 && surplus == 0 && unclaimed == 1 {
+	if nMod == 1 && surplus == 0 && spare >= 1 {
 		rt.Reach("c14.statreuse")
-		rt.AssertExcept(rt.SameObject(nb[modIdx].BoundMetric(), ob[ucIdx].BoundMetric()), "a modified rule with unchanged statistic parameters keeps the accumulated statistics", "D9", region)
+		found := false
+		for j := 0; j < nOld; j++ {
+			if !keptOld[j] && rt.SameObject(nb[modIdx].BoundMetric(), ob[j].BoundMetric()) {
+				found = true
+			}
+		}
+		rt.AssertExcept(found, "a modified rule with unchanged statistic parameters keeps the accumulated statistics", "D9", region)
 	}
 }
